@@ -36,13 +36,14 @@ def required_cells(tier):
     for fam in ("tetrahedron", "hexahedron", "pyramid", "prism"):
         req["body:" + fam] = 20 if q else 300
     req["kind:PH"] = 200 if q else 5000
-    req["body:with-coplanar-faces"] = 40 if q else 800
+    req["body:with-coplanar-faces"] = 25 if q else 800
     req["pose:via-move"] = 150 if q else 4000
     req["pose:original-after-sibling-moved"] = 50 if q else 1000
     req["pose:endpoints-assigned"] = 20 if q else 400
     req["pose:constructor-arguments-moved-afterwards"] = 50 if q else 1000
     req["pose:base-or-faces-moved-into-place"] = 100 if q else 2000
     req["body:minus1-minus2-slab"] = 30 if q else 600
+    req["body:tiny(edges<=1/2)"] = 30 if q else 600
     req["history:hash-alike-twin-measured-first"] = 30 if q else 600
     req["perm:exhaustive-polygon"] = 100
     req["orient:exhaustive-polyhedron"] = 100
@@ -112,6 +113,24 @@ def cases(rng, budget, widx, nworkers, tier):
                 fo = list(range(nf))
                 rng.shuffle(fo)
                 yield {"k": "PH", "d": d, "nt": nt, "forder": fo, "flips": rng.getrandbits(nf), "rots": [rng.randrange(6) for _ in range(nf)], "slab": True}
+                continue
+            if rng.random() < 0.3:
+                # a very small body (edges of length 1/4 .. 1/2): relative accuracy must not depend on the size
+                p0 = gen.rpt(rng, 4, (1, 2, 4))
+                es = rng.sample(gen.PRIM_DIRS, 3)
+                if K.det3(*es) == 0:
+                    continue
+                sc = rng.choice((F(1, 4), F(1, 4), F(1, 2)))
+                pts = [p0] + [K.add(p0, K.mul(e, sc)) for e in es]
+                if rng.random() < 0.4:
+                    pts.append(K.add(p0, K.mul(K.add(es[0], es[1]), sc)))       # quarter-size square pyramid / wedge
+                d = K.hull3d(pts)
+                if d is None or not gen.ok_coords(d, 4, 12):
+                    continue
+                nf = len(d[2])
+                fo = list(range(nf))
+                rng.shuffle(fo)
+                yield {"k": "PH", "d": d, "nt": nt if nt != "int" else "float", "forder": fo, "flips": rng.getrandbits(nf), "rots": [rng.randrange(6) for _ in range(nf)], "tiny": True}
                 continue
             if len(d[1]) > 10 or max(len(f) for f in d[2]) > 6:
                 continue
@@ -321,6 +340,8 @@ def judge(case):
     else:
         if case.get("slab"):
             mu.cell("body:minus1-minus2-slab")
+        if case.get("tiny"):
+            mu.cell("body:tiny(edges<=1/2)")
         if case.get("twin"):
             _measure_twin(G, case["twin"], nt, mu)
         ph = build_polyhedron(G, d[2], case["forder"], case["flips"], case["rots"], nt, case.get("argmove"), premove=case.get("premove"))
